@@ -36,7 +36,12 @@ class SubtreesTrie(Generic[T]):
         if init_trie:
             self.trie = init_trie
         else:
-            self.trie = datrie.Trie([chr(i) for i in range(30)])
+            # Path element `i` is encoded as `chr(i + 2)` (see `path_to_trie_key`), so
+            # the alphabet has to cover the highest child index occurring in the paths.
+            max_index = max(
+                (idx for path in (init_map or {}) for idx in path), default=0
+            )
+            self.trie = datrie.Trie(ranges=[(chr(1), chr(max(29, max_index + 2)))])
             for path in init_map or {}:
                 self.trie[path_to_trie_key(path)] = init_map[path]
 
